@@ -159,6 +159,7 @@ type xItem struct {
 	all         bool
 	props       []string
 	ns, local   string
+	deep        int // a foreign property with content nested this deep (0: empty element)
 }
 
 type xSel struct {
@@ -197,7 +198,11 @@ func (s *xSel) sx() string {
 					items = append(items, hx.L("ad", hx.L(ps...)))
 				}
 			} else {
-				items = append(items, hx.L("o", hx.S(it.ns), hx.S(it.local)))
+				if it.deep > 0 {
+					items = append(items, hx.L("o", hx.S(it.ns), hx.S(it.local), strconv.Itoa(it.deep)))
+				} else {
+					items = append(items, hx.L("o", hx.S(it.ns), hx.S(it.local)))
+				}
 			}
 		}
 		return hx.L(items...)
@@ -264,7 +269,11 @@ func parseXSel(x hx.Sx) xSel {
 				}
 				s.items = append(s.items, xi)
 			} else {
-				s.items = append(s.items, xItem{ns: it.Args()[0].Str(), local: it.Args()[1].Str()})
+				xi := xItem{ns: it.Args()[0].Str(), local: it.Args()[1].Str()}
+				if len(it.Args()) > 2 {
+					xi.deep = int(it.Args()[2].Int())
+				}
+				s.items = append(s.items, xi)
 			}
 		}
 		return s
